@@ -124,7 +124,8 @@ def check_conditioned(res):
     episode the reset observation, not the previous episode's final observation."""
     steps = [e for e in res["log"] if e[0] == "step"]
     if steps and not res["queries"]:
-        return "the behaviour policy (epsilon_greedy_policy of the routine's module) was never asked", {}
+        return "HOOK", {"what": "epsilon_greedy_policy of the routine's module was never called although steps were executed: the observation device no longer "
+                                "sees the behaviour policy (renamed / reached through another name?)"}
     for k, e in enumerate(steps):
         asked = [(o, a) for n, o, a in res["queries"] if n == k]
         if (e[1], e[2]) not in asked:
